@@ -146,6 +146,7 @@ fn add_stats(a: &mut RunStats, b: &RunStats) {
     a.model_diverged += b.model_diverged;
     a.unmount_crash_images += b.unmount_crash_images;
     a.unmount_faults += b.unmount_faults;
+    a.reclaim_after_retry_checked += b.reclaim_after_retry_checked;
     a.alias_tail_form += b.alias_tail_form;
     a.hard_faults += b.hard_faults;
     a.clock_span_s += b.clock_span_s;
@@ -295,7 +296,7 @@ pub fn stats_json(s: &RunStats) -> Value {
             "not_enough_space_reported": s.nospace_seen, "fixed_root_full": s.root_full_seen, "directory_grew": s.dir_grew,
             "lfn_run_straddles_cluster": s.lfn_straddle, "write_crossed_cluster": s.write_cross_cluster,
             "steps_with_several_handles_alive": s.multi_handle_steps, "failed_calls_checked_for_atomicity": s.fail_atomic_checked,
-            "device_writes_audited": s.audited_writes, "clock_moved_backwards": s.clock_back, "runs_stopped_because_library_and_model_diverged(outcome oracle not enabled)": s.model_diverged, "crash_images_remounted(power cut inside unmount or inside a call, C05)": s.unmount_crash_images, "unmount_calls_failed_by_an_injected_error(then completed by the destructor)": s.unmount_faults, "aliases_in_hash_form(max per run, summed)": s.alias_hash_form, "aliases_in_numeric_tail_form(max per run, summed)": s.alias_tail_form
+            "device_writes_audited": s.audited_writes, "clock_moved_backwards": s.clock_back, "runs_stopped_because_library_and_model_diverged(outcome oracle not enabled)": s.model_diverged, "crash_images_remounted(power cut inside unmount or inside a call, C05)": s.unmount_crash_images, "unmount_calls_failed_by_an_injected_error(then completed by the destructor)": s.unmount_faults, "removes_failed_before_touching_the_table_then_repeated(chain must be released)": s.reclaim_after_retry_checked, "aliases_in_hash_form(max per run, summed)": s.alias_hash_form, "aliases_in_numeric_tail_form(max per run, summed)": s.alias_tail_form
         },
         "faults_fired": {
             "hard_error": s.fired.hard, "eintr": s.fired.eintr, "short_read": s.fired.short_read, "short_write": s.fired.short_write,
